@@ -52,7 +52,9 @@ type c04Ans struct {
 	All   []string
 }
 
-func (a c04Ans) String() string { return fmt.Sprintf("MatchRoute=%q MatchAllRoutes=%v", a.First, a.All) }
+func (a c04Ans) String() string {
+	return fmt.Sprintf("MatchRoute=%q MatchAllRoutes=%v", a.First, a.All)
+}
 
 func (a c04Ans) Equal(b c04Ans) bool {
 	if a.First != b.First || len(a.All) != len(b.All) {
